@@ -1,5 +1,5 @@
 """Per-property configuration and the generic check runner."""
-import os, sys, time, json, re
+import os, sys, time, json, re, zlib
 import core
 from core import Violation
 
@@ -176,7 +176,7 @@ def run_ties(pid, cfg, tier, seed, workdir, stats):
             n = nt if thorough else nq
             for b in backends:
                 nb = n if b == "sse2" else max(20, n // 3)
-                core.correspond(pid, tier, b, ["gen", profile, gen_seed(seed, hash(profile) % 97), nb], workdir, stats)
+                core.correspond(pid, tier, b, ["gen", profile, gen_seed(seed, zlib.crc32(profile.encode()) % 97), nb], workdir, stats)
         elif kind == "t1":
             t1_tie(pid, stats)
         elif kind == "custom":
